@@ -236,7 +236,19 @@ func (d *derivCtx) calleeFieldProv(c *ssa.Call, g *ssa.Function, f *types.Var, d
 	if ret == nil {
 		return prov{"unknown", "callee result"}
 	}
-	sub := &derivCtx{P: d.P, fn: g}
+	// (the helper's parameters stand for this call's arguments: `cloneWith(fields)` stores what it is given)
+	saved := substEnv
+	substEnv = map[ssa.Value]ssa.Value{}
+	for k, v2 := range saved {
+		substEnv[k] = v2
+	}
+	for k, prm := range g.Params {
+		if k < len(c.Call.Args) {
+			substEnv[prm] = c.Call.Args[k]
+		}
+	}
+	defer func() { substEnv = saved }()
+	sub := &derivCtx{P: d.P, fn: g, outer: d}
 	if !sub.isLocalObject(ret) {
 		return prov{"shared", "callee " + fname(g) + " returns an existing object"}
 	}
